@@ -377,11 +377,16 @@ def evaluate(c, cpp, orc, res=None):
                 % (bad,), "value >= max pairwise distance", str(bad))
     if flagsd["valid"] != "1":
         return ("spec:invalid-filtration", "the output is not a filtered simplicial complex (a face is missing or later than a coface)", "closed, monotone", cplx_str(sx)[:300])
+    if flagsd["greedy"] == "1" and flagsd["ok"] != "1":
+        return ("mini-cut", "the set of kept points (%s of %d) does not follow the rule 'stop at the first insertion radius < mini or <= 0' (mini=%s)"
+                % (order, c["n"], c["mini"]), "cut at the first radius < mini or <= 0", order)
     if flagsd["ok"] != "1":
         return ("farthest-point-order", "the order used by the implementation (%s) is not a farthest-point order / the mini cut is inconsistent" % order,
                 "greedy permutation", order)
     exact = eps_exact(c["eps"])
-    if exact or flagsd["sens"] != "1":
+    if os.environ.get("C19_SPEC_ONLY"):      # development aid: evaluate the specification only
+        pass
+    elif exact or flagsd["sens"] != "1":
         if [s for s, _ in model] != [s for s, _ in sx]:
             a, b = set(s for s, _ in model), set(s for s, _ in sx)
             return ("model:simplex-set-differs", "the complex differs from the model for order %s: only in model %s, only in C++ %s"
@@ -396,8 +401,9 @@ def evaluate(c, cpp, orc, res=None):
     if flagsd["inter"] == "0":
         return ("spec:interleaving-bound", "persistence diagrams of the sparse and the Rips filtration are farther apart than 1/(1-eps) (order %s): %s"
                 % (order, " | ".join(parts[2:])[:600]), "multiplicative bottleneck distance <= 1/(1-eps)", " | ".join(parts[2:])[:1500])
-    if res is not None and flagsd["inter"] == "1":
+    if res is not None and flagsd["inter"] in ("1", "1x"):
         res.count("interleaving-bound measured (Z_2 and Z_3)")
+        res.count("interleaving: sparse and Rips diagrams " + ("differ (within the bound)" if flagsd["inter"] == "1x" else "coincide"))
         if len(parts) >= 4 and parts[2].split("sparse:")[1] != parts[3].split("sparse:")[1]:
             res.count("barcode differs between Z_2 and Z_3")
     return None
